@@ -46,7 +46,7 @@ claimed["C04"] = (
     "Bounded symbolic verification of the in-memory adapter: from EVERY membership matrix of 2x2 (quick) / 3x3 (thorough) sockets x rooms built through the real AddAll, and every target set T and "
     "exclusion set E (plus the sender's own-id room, as a socket's broadcast operator adds), the real Broadcast (apply/computeExceptSids, mapset library code executed from SSA) delivers to exactly "
     "the sockets the 5-line reference selects, once each, never to the sender; one membership operation (join, leave, leave-all, SocketsJoin, SocketsLeave, DisconnectSockets with sockets calling back "
-    "into the adapter) from every such state yields exactly the specified new membership and preserves the representation invariant (rooms/sids mutually inverse, no empty room kept) - one inductive "
+    "into the adapter, leaving the own-id room) from every such state yields exactly the specified new membership, a broadcast without target rooms afterwards still reaches every connected socket once, and preserves the representation invariant (rooms/sids mutually inverse, no empty room kept) - one inductive "
     "step covers histories of any length over that universe. C04_select_own lets T and E also contain the sockets' own-id rooms (To(socketID)/Except(socketID): a socket selected through its own room AND a joined room is still reached once), for Broadcast and FetchSockets, 2x2 (quick) / 3x2 (thorough). To/Except immutability is checked concretely.",
     "Also: a broadcast racing a join / leave / disconnect of a third socket under all interleavings (interval semantics: member throughout exactly once, non-member never, changing socket at most once). Outside the claim: multi-node adapters; universes larger than 3x3; end-to-end delivery. "
     "Map iteration follows insertion order in the executor (Go leaves it unspecified).",
@@ -67,8 +67,8 @@ claimed["C09"] = (
     "ALL byte values); ack id symbolic below 10^4 (quick) / 10^6 (thorough) through the real strconv.FormatUint/ParseUint executed from SSA; attachment count symbolic 0..999; event names of up to 2/4 symbolic "
     "bytes over printable ASCII (quotes and backslashes included) followed or not by a further argument. JSON is a string-literal model that `sv selftest C09` validates natively against encoding/json "
     "(exhaustively on short strings) on every run. "
-    "The binary walk (real deconstruct*/reconstruct*/hasBinary through the executor's reflect model with addressability: Field, Index, CanSet, Set, SetBytes, MakeSlice, SetMapIndex): a menu of 15 argument trees "
-    "(struct pointer / struct value / map[string]any / []any / bare Binary / []Binary / two leaves in one struct / pointer and interface fields / slice->map->struct pointer / *Binary (refused) / map[string]Binary / "
+    "The binary walk (real deconstruct*/reconstruct*/hasBinary through the executor's reflect model with addressability: Field, Index, CanSet, Set, SetBytes, MakeSlice, SetMapIndex): a menu of 17 argument trees "
+    "(two-entry map[string]any / map[string]Binary with an unordered oracle, struct pointer / struct value / map[string]any / []any / bare Binary / []Binary / two leaves in one struct / pointer and interface fields / slice->map->struct pointer / *Binary (refused) / map[string]Binary / "
     "[]*struct / [][]any / map in map / struct value with interface field) with ANY bytes in 1..2 Binary leaves of 0..2 (quick) / 0..3 (thorough) bytes each: the frames are exactly '5<n>-' + the JSON text with the "
     "n-th leaf (walk order) replaced by {\"_placeholder\":true,\"num\":n} + the n attachments byte-identical and in order; the caller's values are unchanged afterwards (snapshot comparison); encoding the same "
     "values again yields the same frames, also with the SAME header object (the kept packets of connection state recovery: found a defect there, repaired); and the frames fed to a second parser's Add complete exactly once with the last frame and decode (typed struct, map[string]any, map[string]Binary targets) to byte-identical "
@@ -113,10 +113,10 @@ claimed["C12"] = (
     "Bounded symbolic execution of the admission and event-middleware kernels on a server built from the real stores, namespaces, in-memory adapters and packet queue (transport and encoder are recording stand-ins): "
     "(1) chains of 0..3 (quick) / 0..5 (thorough) namespace middlewares, each accepting or rejecting by a symbolic Boolean (every accept/reject vector), rejection as error / string / struct pointer / struct VALUE with any int field (zero included) / ANY string of length 0..1 (empty included), default and custom "
     "namespace, through the real serverConn.connect -> Namespace.add -> runMiddlewares -> doConnect -> onConnect: run order and short-circuit, socket listed / in own room / connected / connection handlers run IFF no "
-    "rejection, exactly one CONNECT_ERROR carrying the rejecting middleware's data and nothing of the socket left otherwise; (2) an event middleware registered through the real Use (signature check on the reflect "
+    "rejection, exactly one CONNECT_ERROR carrying the rejecting middleware's data and nothing of the socket left otherwise; (3) two connections asking for the same namespace at once, each with its own symbolic verdict, middleware yielding, all interleavings: each ends up exactly as its own verdict says; (4) connection state recovery ON and a client presenting ANY made-up session id / offset (0..1 symbolic bytes each, parsed from the CONNECT's JSON by the executor's flat-object Unmarshal) to a rejecting chain: the claim is no ticket past the middlewares; (2) an event middleware registered through the real Use (signature check on the reflect "
     "model) with five handler signature families (first parameter string / int / struct, no parameters, with ack function): it sees the event's NAME and arguments before the handler, a rejected event never "
     "reaches the handler and is reported to the error handlers, an accepted one reaches it exactly once.",
-    "Outside the claim: concurrently connecting clients (C16), the wire encoding of CONNECT_ERROR (C09), auth payload decoding (encoding/json.Unmarshal is stubbed: succeeds, target untouched).",
+    "Outside the claim: more than two concurrently connecting clients, the wire encoding of CONNECT_ERROR (C09), auth payloads other than flat objects of string members (encoding/json.Unmarshal is otherwise stubbed: succeeds, target untouched).",
     "5 (C12)")
 
 claimed["C17"] = (
@@ -157,8 +157,8 @@ claimed["C05"] = (
     "addressed to /, /a, /b (existing, not joined), /zz (not existing) or '' through the real serverConn.onEIOPacket/onParserFinish: dispatched only to the socket of exactly that namespace; non-CONNECT for a namespace "
     "without a socket, or CONNECT for one already joined, closes the connection and reaches nobody; CONNECT for an existing unjoined namespace attaches the client there and nowhere else; DISCONNECT leaves the other "
     "namespaces connected; (3) per-namespace adapters, rooms and ack-id counters; a namespace broadcast reaches only that namespace's socket; disconnecting one namespace keeps the other's socket and rooms; (4) attach only after acceptance: while the middleware of a requested namespace is still deciding (it even joins a room), broadcasts to that "
-    "namespace and to that room put nothing on the connection, the socket is not listed, the traffic of the attached namespace goes on; acceptance attaches, refusal attaches nothing and nothing is ever sent for it.",
-    "Outside the claim: the client-side router (Manager.onParserFinish), interleavings of CONNECT replies (sequential here), everything JSON.",
+    "namespace and to that room put nothing on the connection, the socket is not listed, the traffic of the attached namespace goes on; acceptance attaches, refusal attaches nothing and nothing is ever sent for it; (5) client side: the router (an event reaches only the client socket of exactly its namespace, symbolic look-alike names included) and error isolation (an undecodable event on /a never invokes a handler of a sibling namespace that is connected or waiting for its CONNECT answer - in particular not its connect_error handlers - and leaves its state untouched).",
+    "Outside the claim: interleavings of CONNECT replies (sequential here), everything JSON.",
     "5 (C05)")
 
 claimed["C16"] = (
